@@ -149,8 +149,10 @@ theorem no_placeholder_left {s : Name} (h : accepted (validateName s) = true) (p
 
 /-! ## scaffolding -/
 
-/-- **All-or-nothing.** For every well-formed filesystem, every fault plan (any number of failing
-`mkdir`/`openat`/`write`/`rename` calls, at any positions, with any errno class), every keypair and every
+/-- **All-or-nothing.** For every well-formed filesystem, every fault plan `flt : Cls → Nat → Option Errno` — any
+number of failing `mkdir`/`openat`/`write`/`rename` calls, at any positions, each with ANY error value
+(`Errno` = `EEXIST`, `ENOENT`, `EINTR` or `other code` for every other errno number: the error value is a
+parameter of every step failure, so this is "for every step and every error kind") —, every keypair and every
 staging-name sequence distinct from the target: `scaffold_project` either returns `Ok`, the target was
 absent and now holds exactly the complete project tree and nothing else changed (so no staging
 directory remains) — or it returns `Err` and the filesystem is exactly what it was. -/
@@ -238,7 +240,7 @@ example : shielded "{{name_lowercase}_lowercase}".toList = false := by decide
 example : (scaffoldProject (fun _ _ => none) ⟨"PK".toList, "[1]".toList⟩ (fun k => '.' :: (toString k).toList)
     "ab".toList { fs := fun _ => none }).2 = .ok := by decide +kernel
 /-- … a failing 5th `openat` gives `err` (the `err` branch is inhabited), and so does a dangling symlink. -/
-example : (scaffoldProject (fun c k => if c = .openat ∧ k = 5 then some .other else none) ⟨"PK".toList, "[1]".toList⟩
+example : (scaffoldProject (fun c k => if c = .openat ∧ k = 5 then some (.other 28) else none) ⟨"PK".toList, "[1]".toList⟩
     (fun k => '.' :: (toString k).toList) "ab".toList { fs := fun _ => none }).2 = .err := by decide +kernel
 example : (scaffoldProject (fun _ _ => none) ⟨"PK".toList, "[1]".toList⟩ (fun k => '.' :: (toString k).toList)
     "ab".toList { fs := upd (fun _ => none) ["ab".toList] (.symlink false) }).2 = .err := by decide +kernel
@@ -246,6 +248,15 @@ example : (scaffoldProject (fun _ _ => none) ⟨"PK".toList, "[1]".toList⟩ (fu
 example : (scaffoldProject (fun c k => if c = .mkdir ∧ k = 1 then some .eexist else none) ⟨"PK".toList, "[1]".toList⟩
     (fun k => '.' :: (toString k).toList) "ab".toList { fs := fun _ => none }).2 = .ok := by decide +kernel
 example : WF (fun _ => none) := fun _ _ h => absurd rfl h
+/-- `EEXIST` / `ENOTEMPTY` (39) at the final rename: still `err`, still cleaned up (the round-5 seeded change broke this). -/
+example : (scaffoldProject (fun c k => if c = .rename ∧ k = 1 then some .eexist else none) ⟨"PK".toList, "[1]".toList⟩
+    (fun k => '.' :: (toString k).toList) "ab".toList { fs := fun _ => none }).2 = .err := by decide +kernel
+example : (scaffoldProject (fun c k => if c = .rename ∧ k = 1 then some (.other 39) else none) ⟨"PK".toList, "[1]".toList⟩
+    (fun k => '.' :: (toString k).toList) "ab".toList { fs := fun _ => none }).2 = .err := by decide +kernel
+/-- An `EINTR` on an `openat` or a `write` is retried by std and the scaffold still succeeds. -/
+example : (scaffoldProject (fun c k => if (c = .openat ∧ k = 3) ∨ (c = .write ∧ k = 7) then some .eintr else none)
+    ⟨"PK".toList, "[1]".toList⟩ (fun k => '.' :: (toString k).toList) "ab".toList { fs := fun _ => none }).2 = .ok := by
+  decide +kernel
 /-- Padded argument, EMPTY directory at the trimmed name: refused (hypothesis of `existing_target_untouched` inhabited). -/
 example : (newProject (fun _ _ => none) ⟨"PK".toList, "[1]".toList⟩ (fun n k => '.' :: n ++ (toString k).toList)
     " ab\t".toList { fs := upd (fun _ => none) ["ab".toList] .dir }).2 = .err := by decide +kernel
